@@ -359,6 +359,39 @@ func init() {
 					want = lint.Error
 				}
 				c19Lint(c, g, spec.DER(), "e_subject_contains_reserved_ip", want, "common name "+ip.String())
+				if rng.Intn(3) == 0 {
+					// several commonName attributes. Which of them "the" common name is, the property does not say; it is
+					// judged only where every reading agrees: the LAST one (the one the parser exposes) reserved => a
+					// reserved IP common name is present, error; every one public => pass
+					cns := []net.IP{c19RandAddr(rng), ip}
+					if rng.Intn(2) == 0 {
+						cns = append([]net.IP{c19RandAddr(rng)}, cns...)
+					}
+					attrs := []gen.ATV{gen.A(gen.OIDC, "US"), gen.A(gen.OIDO, "Example Org")}
+					anyRes, lastRes := false, isRes(cns[len(cns)-1])
+					var shown []string
+					for k, a := range cns {
+						if k == 0 && rng.Intn(4) == 0 {
+							attrs = append(attrs, gen.A(gen.OIDCN, "www.example.com"))
+							shown = append(shown, "www.example.com")
+						}
+						attrs = append(attrs, gen.A(gen.OIDCN, a.String()))
+						shown = append(shown, a.String())
+						anyRes = anyRes || isRes(a)
+					}
+					spec2 := gen.TLSLeaf(nb, "www.example.com")
+					spec2.Subject = gen.Name(attrs...)
+					switch {
+					case lastRes:
+						c19Lint(c, g, spec2.DER(), "e_subject_contains_reserved_ip", lint.Error, fmt.Sprintf("common names %v (last one reserved)", shown))
+						c.R.Count("multi_cn_judged", 1)
+					case !anyRes:
+						c19Lint(c, g, spec2.DER(), "e_subject_contains_reserved_ip", lint.Pass, fmt.Sprintf("common names %v (all public)", shown))
+						c.R.Count("multi_cn_judged", 1)
+					default:
+						c.R.Count("multi_cn_not_judged_readings_differ", 1)
+					}
+				}
 			case 2: // permitted name-constraint subtree
 				a := c19RandAddr(rng)
 				p := rng.Intn(8*len(a) + 1)
